@@ -222,6 +222,13 @@ Theorem C01_quorum_table : forall e, In e all_versions -> version_ok e = true.
 Proof. exact real_versions_meet_guard. Qed.
 Print Assumptions C01_quorum_table.
 
+(* the version look-back constant of the model is core.protocolRoundBack; every protocol
+   version reads the validator set at a strictly older height than the seed *)
+Theorem C01_lookback_table :
+  go_protocol_round_back = protocol_round_back /\ forall e, In e go_lookbacks -> lookback_ok e = true.
+Proof. exact real_lookbacks. Qed.
+Print Assumptions C01_lookback_table.
+
 Theorem C01_constants :
   go_cht_frequency = cht_frequency /\ go_steps = (step_proposal, step_precommit, step_certificate).
 Proof. exact real_constants. Qed.
